@@ -2,6 +2,7 @@ import asyncio
 from contextlib import suppress
 from typing import Callable, Protocol
 
+from . import hdrs
 from ._websocket.reader import WebSocketDataQueue
 from .base_protocol import BaseProtocol
 from .client_exceptions import (
@@ -350,6 +351,10 @@ class ResponseHandler(BaseProtocol, DataQueue[tuple[RawResponseMessage, StreamRe
         payload: StreamReader | None = None
         for message, payload in messages:
             if message.should_close:
+                self._should_close = True
+            elif message.code == 101 and hdrs.UPGRADE in message.headers:
+                # The peer switched to the protocol named in the Upgrade
+                # header: no further HTTP message can travel on the connection.
                 self._should_close = True
 
             self._payload = payload
